@@ -97,4 +97,39 @@ theorem parse_order (i j : Int) (hi : int64Min ≤ i ∧ i ≤ int64Max) (hj : i
     (parseInt64 (printInt i) < parseInt64 (printInt j)) ↔ i < j := by
   rw [parseInt64_printInt i hi.1 hi.2, parseInt64_printInt j hj.1 hj.2]
 
+/-- RandomPartitioner token strings (`big.Int.SetString`): the decimal string of EVERY integer (no range bound;
+    Cassandra's tokens are 0 … 2^127 and the minimum token -1) parses to that integer -/
+theorem parseBig_printInt (i : Int) : parseBig (printInt i) = some i := by
+  by_cases hneg : i < 0
+  · simp only [printInt, hneg, if_true, parseBig, splitSign, parseNat_natDigits]
+    simp; omega
+  · simp only [printInt, hneg, if_false]
+    have hh := natDigits_head_digit i.natAbs
+    have hp := parseNat_natDigits i.natAbs
+    unfold parseBig
+    cases hds : natDigits i.natAbs with
+    | nil => simp [hds, parseNat] at hp
+    | cons c cs =>
+      have := hh c (by simp [hds])
+      rw [hds] at hp
+      simp only [splitSign_plain c cs this.1 this.2, hp]
+      simp; omega
+
+/-! ### partitioner selection by class name -/
+
+theorem select_murmur3 (pkg : List Char) : selectPartitioner (pkg ++ nameMurmur3) = some .murmur3 := by
+  simp [selectPartitioner, hasSuffix, nameMurmur3, List.reverse_append]
+
+set_option linter.unusedSimpArgs false in
+theorem select_random (pkg : List Char) : selectPartitioner (pkg ++ nameRandom) = some .random := by
+  simp [selectPartitioner, hasSuffix, nameMurmur3, nameOrdered, nameRandom, List.reverse_append, List.isPrefixOf]
+
+theorem select_byteOrdered (pkg : List Char) :
+    selectPartitioner (pkg ++ 'B' :: 'y' :: 't' :: 'e' :: nameOrdered) = some .ordered := by
+  simp [selectPartitioner, hasSuffix, nameMurmur3, nameOrdered, List.reverse_append, List.isPrefixOf]
+
+theorem select_orderPreserving (pkg : List Char) :
+    selectPartitioner (pkg ++ ['O','r','d','e','r','P','r','e','s','e','r','v','i','n','g','P','a','r','t','i','t','i','o','n','e','r']) = none := by
+  simp [selectPartitioner, hasSuffix, nameMurmur3, nameOrdered, nameRandom, List.reverse_append, List.isPrefixOf]
+
 end Token
